@@ -1,3 +1,4 @@
+import Clover.Generated.Facts
 import Clover.Proofs.ExportImport
 import Clover.Props.C04
 import Clover.Spec.Spec
@@ -115,3 +116,21 @@ theorem exportable_iff (d : Doc) (hv : validDoc d = true) : Exportable d ↔ d.h
   exportable_iff_of_valid d hv
 
 end CV.Props.C19
+
+-- SOURCE-TEXT-BEGIN (generated by tools/mk_source_theorems.py; do not edit by hand)
+namespace CV.Props.C19
+
+/-- (facts, regenerated from the source on every run) **The source text the model transcribes is the text of the
+    current source**: the bodies (comments and layout removed) of the 5 functions the model behind C19 was written from and
+    validated against.  Any edit of one of them breaks this theorem at build time; the check then searches with the
+    property's own oracles for a failing input, and reports `no-failing-input-found` if it finds none: the model then
+    has to be re-validated against the new text (and this block regenerated). -/
+theorem source_decision_logic : CV.Facts.logicC19 = [
+  "clover..restoreExpiresAt: { if s, ok := fields[d.ExpiresAtField].(string); ok { if t, err := time.Parse(time.RFC3339Nano, s); err == nil { fields[d.ExpiresAtField] = t } } }", 
+  "clover.DB.CreateCollectionByQuery: { q, err := normalizeCriteria(q) if err != nil { return err } return db.createCollectionWith(name, func(tx store.Tx) ([]*d.Document, error) { docs := make([]*d.Document, 0) err := db.iterateDocs(tx, q, func(doc *d.Document) error { docs = append(docs, doc) return nil }) return docs, err }) }", 
+  "clover.DB.ExportCollection: { exists, err := db.HasCollection(collectionName) if err != nil { return err } if !exists { return ErrCollectionNotExist } result, err := db.FindAll(query.NewQuery(collectionName)) if err != nil { return err } docs := make([]map[string]interface{}, 0) for _, doc := range result { docs = append(docs, doc.AsMap()) } jsonString, err := json.Marshal(docs) if err != nil { return err } return os.WriteFile(exportPath, jsonString, os.ModePerm) }", 
+  "clover.DB.ImportCollection: { file, err := os.Open(importPath) if err != nil { return err } defer file.Close() reader := bufio.NewReader(file) jsonObjects := make([]*map[string]interface{}, 0) err = json.NewDecoder(reader).Decode(&jsonObjects) if err != nil { return err } docs := make([]*d.Document, 0) for _, doc := range jsonObjects { if doc == nil { return errors.New(\"invalid document: null\") } restoreExpiresAt(*doc) docs = append(docs, d.NewDocumentOf(*doc)) } return db.createCollectionWith(collectionName, func(store.Tx) ([]*d.Document, error) { return docs, nil }) }", 
+  "clover.DB.createCollectionWith: { tx, err := db.store.Begin(true) if err != nil { return err } defer tx.Rollback() if err := db.createCollection(tx, name); err != nil { return err } docs, err := getDocs(tx) if err != nil { return err } assignObjectIds(docs) if err := db.insertDocs(tx, name, docs); err != nil { return err } return tx.Commit() }"] := by rfl
+
+end CV.Props.C19
+-- SOURCE-TEXT-END
